@@ -580,8 +580,10 @@ struct run_cfg_t
 };
 
 long g_fails = 0;
+bool g_c02_clauses = true; // mode c01 applies only C01's clauses (truthful `converged`, quadratic class)
 void fail(const long id, const std::string& what)
 {
+    if (!g_c02_clauses && what.compare(0, 9, "converged") != 0 && what.compare(0, 9, "quadratic") != 0) return;
     ++g_fails;
     std::printf("FAIL %ld %s\n", id, what.c_str());
 }
@@ -691,7 +693,8 @@ void run_one(const run_cfg_t& cfg, solver_t& solver, const function_t& inner, co
     }
     // not worse than the start, in the solver's documented class
     const bool in_class = ls ? inner.smooth() : (cfg.solver == "rqb" ? inner.convex() : true);
-    if (!bad && !cons && in_class && std::fabs(f0) < 1e8 && g0max < 1e8 && std::isfinite(g0max) &&
+    // (a non-finite result is reported by the clause above, not a second time here)
+    if (!bad && !cons && in_class && std::fabs(f0) < 1e8 && g0max < 1e8 && std::isfinite(g0max) && std::isfinite(state.fx()) &&
         !(state.fx() <= f0 + 5e-4 * (1.0 + std::fabs(f0))))
     {
         std::snprintf(buf, sizeof(buf), "worse-than-start fx=%s f0=%s", vh::hexf(state.fx()).c_str(), vh::hexf(f0).c_str());
@@ -820,6 +823,7 @@ int main(int argc, char** argv)
     const auto        seed = vh::env_seed();
     vh::rng_t         rng(seed ^ (mode == "c01" ? 0xC01C01ULL : 0xC02C02ULL));
 
+    g_c02_clauses = mode != "c01";
     verif::g_event_hook.store(&on_event);
     verif::g_values_hook.store(&on_values);
     verif::g_rng_seed.store(seed | 1U);
@@ -828,7 +832,7 @@ int main(int argc, char** argv)
     if (mode == "c02" && only < 0)
     {
         vh::rng_t srng(seed * 31 + 7);
-        seq_ops = run_sequences(srng, thorough ? 12000 : 1500);
+        seq_ops = run_sequences(srng, thorough ? 20000 : 1500);
     }
 
     const auto solvers = all_solvers();
@@ -838,7 +842,7 @@ int main(int argc, char** argv)
 
     if (mode == "c02")
     {
-        const long per_solver = thorough ? 120 : 12;
+        const long per_solver = thorough ? 200 : 12;
         for (const auto& sd : solvers)
         {
             for (long k = 0; k < per_solver; ++k, ++id)
@@ -868,10 +872,14 @@ int main(int argc, char** argv)
                 auto solver = make_solver_by_id(sd.id);
                 configure(r, *solver, cfg, sd.type == "ls");
                 const auto x0 = make_x0(r, fn->size(), cfg.radius);
-                if (r.range(0, 6) == 0)
+                // targeted case (repo commit 3c2475d): gd -- the one line-search solver that returns its state without the
+                // validity test -- on a function that is +inf (finite gradient) outside a box around the start
+                const bool target_gd = sd.id == "gd" && k % 2 == 0;
+                if (target_gd || r.range(0, 6) == 0)
                 {
                     // bounded domain around the start: radius between "one step" and "a few steps"
-                    auto rf   = std::make_unique<region_function_t>(std::move(fn), x0, log_uniform(r, 1e-3, 3.0) * (1.0 + cfg.radius), static_cast<int>(r.range(0, 3)));
+                    auto rf   = std::make_unique<region_function_t>(std::move(fn), x0, log_uniform(r, 1e-3, 3.0) * (1.0 + cfg.radius),
+                                                                    target_gd ? (r.range(0, 1) ? 1 : 3) : static_cast<int>(r.range(0, 3)));
                     cfg.fname = rf->rname();
                     fn        = std::move(rf);
                 }
